@@ -65,7 +65,7 @@ def model_topdoc(root, scratch_read=lambda fn: open(fn, 'rb').read()):
             pics.append('(%s %s %s)' % (sx_str(name), b2s(data), sx_str(mt or '')))
         return '(%s %s %d (%s) (%s))' % (sx_str(d.mimetype), sx_str(d.folder), 1 if d.settings.hasChildNodes() else 0,
                                          ' '.join(pics), ' '.join(odoc(k) for k in d.childobjects))
-    th = 'None' if root.thumbnail is None else '(Some %s)' % b2s(root.thumbnail)
+    th = 'None' if root.thumbnail is None else '(Some (%s %s))' % (b2s(root.thumbnail), vlib.sx_str(getattr(root, 'thumbnail_mediatype', '')))
     ex = ' '.join('(%s %s %s)' % (sx_str(o.filename), sx_str(o.mediatype), 'None' if o.content is None else '(Some %s)' % b2s(o.content)) for o in root._extra)
     return '(%s %s (%s))' % (odoc(root), th, ex)
 
